@@ -87,6 +87,9 @@ func (g *Guided) Ptr(p capnp.Ptr, v *ref.V, path string, level int) *Mismatch {
 		if p.List().IsValid() || p.Interface().IsValid() {
 			return mm(path, "Ptr.List/Interface", "struct pointer converts to list/interface")
 		}
+		if p.Text() != "" || p.Data() != nil || p.TextDefault("d") != "d" || string(p.DataDefault([]byte("d"))) != "d" {
+			return mm(path, "Ptr.Text/Data", "struct pointer yields text/data")
+		}
 		return g.Struct(s, v, path, level)
 	default:
 		if !p.IsValid() {
@@ -298,6 +301,16 @@ func (g *Guided) List(p capnp.Ptr, l capnp.List, v *ref.V, path string, level in
 			}
 		} else if tb != nil {
 			return mm(path, "Ptr.TextBytes", "non-text yields %q", tb)
+		}
+		g.Compared += 3
+		if got := p.TextDefault("\x01dflt"); isText && got != wantText || !isText && got != "\x01dflt" {
+			return mm(path, "Ptr.TextDefault", "got %q (text=%v want %q)", got, isText, wantText)
+		}
+		if got := p.TextBytesDefault("\x01dflt"); isText && string(got) != wantText || !isText && string(got) != "\x01dflt" {
+			return mm(path, "Ptr.TextBytesDefault", "got %q (text=%v want %q)", got, isText, wantText)
+		}
+		if got := p.DataDefault([]byte{1, 2, 3}); !bytes.Equal(got, v.Data) {
+			return mm(path, "Ptr.DataDefault", "got %x want %x", got, v.Data)
 		}
 		if m := g.oneField(l, v, idx, 1, path); m != nil {
 			return m
